@@ -52,6 +52,26 @@ def _suff(items, k):
     return out
 
 
+def _pref(items, k):
+    """the possible first-k atoms of the expansions of `items` (a result shorter than k is a whole expansion)"""
+    if k <= 0 or not items:
+        return {""}
+    first = items[0]
+    out = set()
+    if isinstance(first, tuple):
+        for alt in first[1]:
+            for hd in _pref(alt, k):
+                if len(hd) >= k:
+                    out.add(hd)
+                else:
+                    for s in _pref(items[1:], k - len(hd)):
+                        out.add(hd + s)
+    else:
+        for s in _pref(items[1:], k - 1):
+            out.add(first + s)
+    return out
+
+
 def _join(outer, local, k=3):
     out = set()
     for tl in local:
@@ -74,6 +94,8 @@ def _star_before_group(p):
                     return "star-before-group"
                 if any(s.endswith("**/") for s in pre):
                     return "doublestar-slash-before-group"
+                if any(s.endswith("/") for s in pre) and any(h.startswith("**") for a in it[1] for h in _pref(list(a) + list(items[k + 1:]), 2)):
+                    return "slash-before-doublestar-group"
                 for a in it[1]:
                     r = walk(a, pre)
                     if r:
@@ -203,7 +225,7 @@ SPEC = dict(
     assumptions=[
         "PARTIAL: `pattern matches path iff some rendered variant matches` is proved only relative to a hypothesis on doublestar (groups = try every alternative) and for normal-form patterns; unconditionally it is monitored on the implementation. Count = enumeration, limit, rejection of malformed patterns, Compare sign-antisymmetry/transitivity and order independence of HighestPrecedencePattern are proved in full (unbounded).",
         "the count overflow (former key variant-count-wraps-int64) is repaired in /repo commit 1160e46: NumVariants saturates at math.MaxInt; the model follows, the limit theorem is unguarded and the 64-group pattern is a regression case (rejected)",
-        "GUARD (finding 12, keys render-rewrites-expansion / star-before-group / doublestar-slash-before-group): the match theorem assumes normal form and expansion-like group handling",
+        "GUARD (finding 12, keys render-rewrites-expansion / star-before-group / doublestar-slash-before-group / slash-before-doublestar-group): the match theorem assumes normal form and expansion-like group handling",
         "order independence assumes Compare returns 0 only between equal variants (monitored on every generated pair)",
         "paths are clean (no `//`), as the callers pass them",
     ],
